@@ -12,9 +12,12 @@ import (
 	"bytes"
 	"context"
 	"encoding/hex"
+	"encoding/json"
 	"errors"
 	"fmt"
 	"math/rand"
+	"os"
+	"path/filepath"
 	"reflect"
 	"sort"
 	"strconv"
@@ -55,8 +58,12 @@ const (
 	nShares   = 4
 	threshold = 3
 	selfIdx   = 2
-	outsider  = 3  // validator known to the beacon node but not part of the cluster lock
-	unknownV  = 99 // label id for a public key / validator nobody knows
+	outsider  = 3     // validator known to the beacon node but not part of the cluster lock
+	unknownV  = 99999 // label id for a public key / validator nobody knows
+	collA     = 4     // two validators of the lock whose abbreviated public keys (PubKey.String()) collide
+	collB     = 5
+	crowd0    = 6 // first of crowdN further validators of the lock
+	crowdN    = 200
 )
 
 type valInfo struct {
@@ -304,6 +311,44 @@ func (e *env) lookup(ctx context.Context) error {
 	return errors.New("verif-env-fault: beacon node unavailable")
 }
 
+// collidingKeys returns two validator secret keys whose public keys share core.PubKey.String().
+// The search is seeded from VERIF_SEED, bounded, and its result cached under VERIF_CACHE.
+func collidingKeys(t *testing.T) (tbls.PrivateKey, tbls.PrivateKey) {
+	t.Helper()
+	dir := os.Getenv("VERIF_CACHE")
+	if dir == "" {
+		dir = os.TempDir()
+	}
+	path := filepath.Join(dir, fmt.Sprintf("gate_collision_seed%d.json", hx.Seed()))
+	var cached [2]string
+	if b, err := os.ReadFile(path); err == nil && json.Unmarshal(b, &cached) == nil {
+		ba, erra := hex.DecodeString(cached[0])
+		bb, errb := hex.DecodeString(cached[1])
+		if erra == nil && errb == nil && len(ba) == 32 && len(bb) == 32 {
+			return tbls.PrivateKey(ba), tbls.PrivateKey(bb)
+		}
+	}
+	r := rand.New(rand.NewSource(hx.Seed()*7919 + 17)) //nolint:gosec
+	seen := map[string]tbls.PrivateKey{}
+	for i := 0; i < 1<<19; i++ {
+		sk, err := tbls.GenerateInsecureKey(t, r)
+		must(t, err)
+		pub, err := tbls.SecretToPublicKey(sk)
+		must(t, err)
+		abbr := core.PubKeyFrom48Bytes(pub).String()
+		if prev, ok := seen[abbr]; ok && prev != sk {
+			b, _ := json.Marshal([2]string{hex.EncodeToString(prev[:]), hex.EncodeToString(sk[:])})
+			_ = os.WriteFile(path, b, 0o644)
+
+			return prev, sk
+		}
+		seen[abbr] = sk
+	}
+	t.Fatal("no pair of validator keys with colliding abbreviations found within the bound")
+
+	return tbls.PrivateKey{}, tbls.PrivateKey{}
+}
+
 // ---- environment
 
 func newEnv(t *testing.T) *env {
@@ -313,9 +358,7 @@ func newEnv(t *testing.T) *env {
 	valset := beaconmock.ValidatorSet{}
 	pubshares := map[core.PubKey]map[int]tbls.PublicKey{}
 	var lock []string
-	for id := 0; id <= outsider; id++ {
-		sk, err := tbls.GenerateInsecureKey(t, kr)
-		must(t, err)
+	addVal := func(id int, sk tbls.PrivateKey, inLock bool) {
 		pk, err := tbls.SecretToPublicKey(sk)
 		must(t, err)
 		shares, err := tbls.ThresholdSplitInsecure(t, sk, nShares, threshold, kr)
@@ -335,10 +378,29 @@ func newEnv(t *testing.T) *env {
 		bv.Validator.PublicKey = eth2p0.BLSPubKey(pk)
 		bv.Status = eth2v1.ValidatorStateActiveOngoing
 		valset[v.vidx] = bv
-		if id != outsider {
+		if inLock {
 			pubshares[v.pk] = v.pubshares
 			lock = append(lock, fmt.Sprintf("(%d, [%s])", id, strings.Join(idxs, "; ")))
 		}
+	}
+	for id := 0; id <= outsider; id++ {
+		sk, err := tbls.GenerateInsecureKey(t, kr)
+		must(t, err)
+		addVal(id, sk, id != outsider)
+	}
+	// validators collA and collB: two validators of the lock whose public keys have the same log
+	// abbreviation (core.PubKey.String(): 3 leading and 3 trailing hex digits)
+	ska, skb := collidingKeys(t)
+	addVal(collA, ska, true)
+	addVal(collB, skb, true)
+	if e.vals[collA].pk.String() != e.vals[collB].pk.String() || e.vals[collA].pk == e.vals[collB].pk {
+		t.Fatalf("collision pair does not collide: %s %s", e.vals[collA].pk, e.vals[collB].pk)
+	}
+	// ... and a crowd of further validators of the lock, so that the components' tables are built for a large cluster
+	for id := crowd0; id < crowd0+crowdN; id++ {
+		sk, err := tbls.GenerateInsecureKey(t, kr)
+		must(t, err)
+		addVal(id, sk, true)
 	}
 	e.lockCoq = "[" + strings.Join(lock, "; ") + "]"
 	var err error
@@ -389,6 +451,9 @@ func newEnv(t *testing.T) *env {
 			}
 			set := core.DutyDefinitionSet{}
 			for _, v := range e.vals {
+				if v.id >= crowd0 {
+					continue // the crowd has no place in an 8-member committee
+				}
 				set[v.pk] = core.NewAttesterDefinition(&eth2v1.AttesterDuty{
 					PubKey: eth2p0.BLSPubKey(v.group), Slot: eth2p0.Slot(duty.Slot), ValidatorIndex: v.vidx,
 					CommitteeIndex: eth2p0.CommitteeIndex(10 + v.id), CommitteeLength: 8, CommitteesAtSlot: 16, ValidatorCommitteeIndex: uint64(v.id),
@@ -1663,6 +1728,39 @@ func (e *env) genCases(perGenLeaves int) genOut {
 				c.Items = []ItemSpec{it}
 				add(c)
 			}
+			// two validators of the lock whose abbreviated public keys collide, and validators of the crowd:
+			// genuine submissions (must be let in) and submissions for one validator signed with this node's
+			// share of the other (must be refused), both directions
+			if gn == ep.gens[0] || gn == ep.gens[len(ep.gens)-1] {
+				cross := func(a, b int) ItemSpec { it := genuine(a, selfIdx); it.SigVal = b; return it }
+				x, y := crowd0+e.r.Intn(crowdN), crowd0+e.r.Intn(crowdN-1)
+				if y >= x {
+					y++
+				}
+				type cc struct {
+					name  string
+					items []ItemSpec
+				}
+				ccs := []cc{
+					{"collision:genuine_A", []ItemSpec{genuine(collA, selfIdx)}},
+					{"collision:genuine_B", []ItemSpec{genuine(collB, selfIdx)}},
+					{"collision:A_signed_with_share_of_B", []ItemSpec{cross(collA, collB)}},
+					{"collision:B_signed_with_share_of_A", []ItemSpec{cross(collB, collA)}},
+				}
+				if ep.family != "att" {
+					ccs = append(ccs, cc{"crowd:genuine", []ItemSpec{genuine(x, selfIdx)}}, cc{"crowd:signed_with_share_of_another", []ItemSpec{cross(x, y)}})
+				}
+				if ep.multi {
+					ccs = append(ccs, cc{"collision:both_genuine", []ItemSpec{genuine(collA, selfIdx), genuine(collB, selfIdx)}},
+						cc{"collision:genuine_A_then_B_signed_with_share_of_A", []ItemSpec{genuine(collA, selfIdx), cross(collB, collA)}})
+				}
+				for _, x := range ccs {
+					c := base
+					c.Class = x.name
+					c.Items = x.items
+					add(c)
+				}
+			}
 			// epochs 0 and 1 and the edges of every fork: signed under the fork version the spec prescribes
 			// for the object's own epoch, and under the other fork versions of the schedule
 			for _, pl := range e.edgePlan(g, perGenLeaves > 100, len(out.specs)) {
@@ -1785,7 +1883,7 @@ func (e *env) genCases(perGenLeaves int) genOut {
 	}
 	// peer messages
 	palts := sigAlterations(selfIdx, true)
-	for _, g := range e.allGens {
+	for gi, g := range e.allGens {
 		base := CaseSpec{Entrance: "peer", Endpoint: "parsigex.handle", Gen: g.Name}
 		sender := func() int { return []int{1, 3, 4}[e.r.Intn(3)] }
 		one := func(class string, f func(c *CaseSpec, it *ItemSpec)) {
@@ -1811,6 +1909,23 @@ func (e *env) genCases(perGenLeaves int) genOut {
 		for _, b := range forkBoundaries {
 			one("fork_boundary_valid", func(c *CaseSpec, _ *ItemSpec) { c.Boundary = b })
 			one("fork_boundary_neighbour_fork", func(c *CaseSpec, it *ItemSpec) { c.Boundary = b; it.Variant = 3 })
+		}
+		if gi%4 == 0 || g.Duty == core.DutyExit || g.Duty == core.DutyBuilderRegistration {
+			sd := sender()
+			crossP := func(a, b, key int) func(*CaseSpec, *ItemSpec) {
+				return func(_ *CaseSpec, it *ItemSpec) { *it = genuine(a, sd); it.SigVal = b; it.KeyOf = key }
+			}
+			x, y := crowd0+e.r.Intn(crowdN), crowd0+e.r.Intn(crowdN-1)
+			if y >= x {
+				y++
+			}
+			one("collision:genuine_A", crossP(collA, collA, collA))
+			one("collision:genuine_B", crossP(collB, collB, collB))
+			one("collision:A_signed_with_share_of_B", crossP(collA, collB, collA))
+			one("collision:B_signed_with_share_of_A", crossP(collB, collA, collB))
+			one("collision:A_filed_under_key_of_B", crossP(collA, collA, collB))
+			one("crowd:genuine", crossP(x, x, x))
+			one("crowd:signed_with_share_of_another", crossP(x, y, x))
 		}
 		for _, pl := range e.edgePlan(g, perGenLeaves > 100, len(out.specs)) {
 			cls := "epoch_edge_valid"
@@ -1925,8 +2040,29 @@ func TestGen(t *testing.T) {
 				e.runSpec(s)
 			}
 		}
-		c := e.runSpec(replay)
-		must(t, hx.WriteJSON("gate_cases.json", map[string]any{"lock": e.lockCoq, "cases": []Case{c}, "leaves": map[string]int{}}))
+		cases := []Case{e.runSpec(replay)}
+		if strings.HasPrefix(replay.Class, "collision:") {
+			// which of two colliding validators a table keyed by the abbreviation ends up holding depends on
+			// Go's map iteration order in the process at hand: the mirrored submission is judged as well
+			m := replay
+			m.ID += 1000000
+			m.Items = append([]ItemSpec(nil), replay.Items...)
+			sw := func(v int) int {
+				switch v {
+				case collA:
+					return collB
+				case collB:
+					return collA
+				}
+
+				return v
+			}
+			for i := range m.Items {
+				m.Items[i].Val, m.Items[i].SigVal, m.Items[i].KeyOf = sw(m.Items[i].Val), sw(m.Items[i].SigVal), sw(m.Items[i].KeyOf)
+			}
+			cases = append(cases, e.runSpec(m))
+		}
+		must(t, hx.WriteJSON("gate_cases.json", map[string]any{"lock": e.lockCoq, "cases": cases, "leaves": map[string]int{}}))
 
 		return
 	}
